@@ -109,6 +109,9 @@ OBLIGATIONS = [
     chx("literal_threshold", "C05_h", "h_literal_threshold", timeout=T,
         desc="Uploader.upload/_got_size: size <= 55 => LiteralUploader only (no EncryptAnUploadable/CHK/helper object is even created); size > 55 => "
              "EncryptAnUploadable(uploadable) + CHKUploader (AssistedUploader with a helper); read cap = verify-cap fields + the uploadable's key; uploadable closed once"),
+    chx("get_size", "C05_h", "h_get_size", timeout=T,
+        desc="FileHandle.get_size: equals the number of bytes readable through the handle for any current position and whatever the OS reports for the "
+             "descriptor (buffered writes still pending); handle rewound; cached — the size feeds the literal threshold, segsize and hence the convergent key"),
     chx("literal_uploader", "C05_h", "h_literal_uploader", timeout=T,
         bounds={"quick": {"lit_max": 55}, "thorough": {"lit_max": 100000}},
         desc="LiteralUploader.start/read_this_many_bytes/FileHandle.read with arbitrary short reads: the literal cap embeds exactly bytes [0,size) in order (probe p); no shares claimed"),
